@@ -52,8 +52,12 @@ CLAIMED["C01"] = dict(
          "not accepted (C01_wire_only_submitted, no unknown or torn frame), at most 1 + retries attempts, never after expiry. Recorded "
          "runs of the real socket (outage, steady incl. > 256 sends, fault families; AT4 and AT5 registries) are judged by the Spec "
          "monitors wireOnlySubmitted / onceInOrderWithoutFault / deliveredWhenPossible and every block is replayed against the model. "
-         "The order / exactly-once clauses are proved in Props/C01Order.lean when present; until then they are decided by the monitor "
-         "on recorded runs only (partial).",
+         "Props/C01Order.lean: in histories without connection loss / reset / close / failed write every message is written at most "
+         "once and in acceptance order (C01_once_in_order_without_fault - the Spec monitor itself; a first version of the monitor "
+         "was refuted by a proved counterexample and corrected), nothing stays queued while connected unless a task is still going "
+         "to drain (C01_nothing_pending_when_idle_connected, with tightness examples), frames are written without an intervening "
+         "suspension (C01_frames_contiguous). Liveness of 'as soon as' (suspended tasks do resume) is decided on recorded runs by "
+         "the monitor deliveredWhenPossible only (partial).",
     design_ref="DESIGN.md section 7, C01",
     technique="Lean 4 proof (trace invariants over all schedules) + trace validation + Spec monitors on recorded runs",
     note=SOCK_NOTE)
